@@ -60,4 +60,11 @@ theorem discipline_reads :
      guardedReads "jrpc2.cache.get" ["c.segments"] "c") = true := by
   decide +kernel
 
+/-- **head_cache_encapsulated**: outside the methods of `NumHash` (which take its mutex first — `discipline_head`,
+    `discipline_reads`), `jrpc2/client.go` touches the shared head cache only through those methods; the one direct
+    field access is the `WithMaxReads` option, applied while the client is being built, before it is shared.
+    (Regenerated from the source: a lock-free peek at `c.lcache.Num` from the poller, the listener or `Latest`
+    shows up as a further entry.) -/
+theorem head_cache_encapsulated : lcacheDirect = ["WithMaxReads: c.lcache.maxreads"] := by decide +kernel
+
 end Shovel.Race
